@@ -318,7 +318,12 @@ class LenClass:
                     return ("EV", ("count", shp.id))
             return TOP
         if short in X.REDUCE:
-            return S if ("axis" not in kws and len(pos) <= 1) else TOP
+            ax = kws.get("axis") or (pos[1] if len(pos) > 1 and short not in ("percentile", "quantile") else None)
+            if ax is None:
+                return S
+            if ax.op == "Const" and isinstance(ax.attr, int) and ax.attr != 0:
+                return self.of(pos[0]) if pos else TOP     # row-wise reduction keeps the event axis
+            return TOP
         if cat == "rng":
             size = kws.get("size")
             if size is None and short and short.startswith("random.") and pos:
